@@ -12,6 +12,7 @@ import (
 	"verifharness/core"
 
 	"github.com/mlange-42/arche/ecs"
+	"github.com/mlange-42/arche/generic"
 	"pgregory.net/rapid"
 )
 
@@ -322,6 +323,7 @@ var staticRegs = []struct {
 	{reflect.TypeOf((**regStaticRel)(nil)).Elem(), false, func(w *ecs.World) ecs.ID { return ecs.ComponentID[*regStaticRel](w) }},
 	{reflect.TypeOf((*[]regStaticRel)(nil)).Elem(), false, func(w *ecs.World) ecs.ID { return ecs.ComponentID[[]regStaticRel](w) }},
 	{reflect.TypeOf((*[1]regStaticRel)(nil)).Elem(), false, func(w *ecs.World) ecs.ID { return ecs.ComponentID[[1]regStaticRel](w) }},
+	{reflect.TypeOf((*regStaticPromoted)(nil)).Elem(), false, func(w *ecs.World) ecs.ID { return ecs.ComponentID[regStaticPromoted](w) }},
 	{reflect.TypeOf((**[]byte)(nil)).Elem(), false, func(w *ecs.World) ecs.ID { return ecs.ComponentID[*[]byte](w) }},
 }
 
@@ -355,7 +357,40 @@ func (r *regWorld) registerStatic() string {
 	r.ids = append(r.ids, id)
 	r.opaque = append(r.opaque, true)
 	r.label("static type registered through ComponentID[T] (interface, pointer, func, map, ...)")
+	// every API that asks "is this type a relation?" gives the registry's answer: a generic filter
+	// takes a relation target exactly for relation types
+	if wr, ok := staticWithRelation[sr.tp]; ok && !r.w.IsLocked() {
+		p := core.Call(func() { wr(r.w) })
+		if r.w.IsLocked() {
+			return fmt.Sprintf("generic filter WithRelation(%v) left the world locked (panic: %v)", sr.tp, p)
+		}
+		if sr.rel && p != nil {
+			return fmt.Sprintf("generic filter WithRelation(%v) is refused although the type is a relation: %v", sr.tp, p)
+		}
+		if !sr.rel && p == nil {
+			return fmt.Sprintf("generic filter WithRelation(%v) is accepted although the type does not count as a relation (ecs.Relation is not embedded as its first field)", sr.tp)
+		}
+		r.label("relation-ness asked through a generic filter")
+	}
 	return ""
+}
+
+type regStaticPromoted struct {
+	regStaticRel
+}
+
+func withRel[T any](w *ecs.World) {
+	q := generic.NewFilter1[T]().WithRelation(generic.T[T](), ecs.Entity{}).Query(w)
+	q.Close()
+}
+
+var staticWithRelation = map[reflect.Type]func(w *ecs.World){
+	reflect.TypeOf(regStaticRel{}):      withRel[regStaticRel],
+	reflect.TypeOf(regStaticLate{}):     withRel[regStaticLate],
+	reflect.TypeOf(regStaticPromoted{}): withRel[regStaticPromoted],
+	reflect.TypeOf(uint64(0)):           withRel[uint64],
+	reflect.TypeOf(ecs.Relation{}):      withRel[ecs.Relation],
+	reflect.TypeOf([1]regStaticRel{}):   withRel[[1]regStaticRel],
 }
 
 func (r *regWorld) apply(op regOp) string {
